@@ -653,6 +653,8 @@ func TestVerifC16(t *testing.T) {
 		{name: "wave2997-number", asset: "WAVE/vectors/cfhd_sets/14.985_29.97_59.94/t1/2022-10-17", segMS: 2002, mpd: "stream.mpd"},
 		{name: "wave2997-tltime", asset: "WAVE/vectors/cfhd_sets/14.985_29.97_59.94/t1/2022-10-17", segMS: 2002, prefix: "segtimeline_1/", mpd: "stream.mpd", timeAddr: true},
 		{name: "testpic8s-number", asset: "testpic_8s", segMS: 8000, mpd: "Manifest.mpd"},
+		// chunks of more than 64 KiB (the sender hands a chunk to the request body in pieces of that size)
+		{name: "testpic8s-chunked", asset: "testpic_8s", segMS: 8000, prefix: "ato_1/chunkdur_1000/", mpd: "Manifest.mpd", atoMS: 1000},
 		{name: "number-snr3", prefix: "snr_3/", mpd: "Manifest.mpd", snr: 3},
 		{name: "tlnr-snr3", prefix: "segtimelinenr_1/snr_3/", mpd: "Manifest.mpd", snr: 3},
 	}
